@@ -164,12 +164,63 @@ Qed.
 Lemma dec_enc_res r : dec_res (enc_res r) = Some r.
 Proof. destruct r as [| |canon ne no|canon ne no udp ttl [f m s a]]; reflexivity. Qed.
 
+Lemma fwd_entry_inv o q id e :
+  fwd_entry o q = Some (id, e) ->
+  exists cip buf, client_ip q = Some cip /\ code_buffer q = Some buf /\ msg_id buf = Some id /\ ecs_matches cip e = true.
+Proof.
+  unfold fwd_entry. destruct (request_to_dns_msg o q) as [| | |canon ne no udp ttl e0] eqn:E; try discriminate.
+  apply forwarded_inv in E. destruct E as [buf [p [cip [Hb [_ [_ [_ [_ [Hc He]]]]]]]]]. rewrite Hb.
+  destruct (msg_id buf) as [i|] eqn:Ei; [|discriminate]. intros H; injection H as <- <-.
+  exists cip, buf. repeat split; try assumption. apply client_subnet_matches. exact He.
+Qed.
+Lemma log_has_enc cip id e rest1 rest2 :
+  ecs_matches cip e = true -> log_has cip id (rest1 ++ enc_entry (id, e) :: rest2) = true.
+Proof.
+  intros H. unfold log_has. rewrite existsb_app. apply orb_true_iff. right. cbn [existsb enc_entry fst snd].
+  rewrite Z.eqb_refl. destruct e as [f m sc a]. cbn [e_family e_mask e_scope e_addr]. rewrite H. reflexivity.
+Qed.
+Lemma prop_pair_model o1 q1 o2 q2 : pair_wf o1 q1 o2 q2 = true -> prop_pair q1 q2 (run_pair o1 q1 o2 q2) = true.
+Proof.
+  unfold pair_wf, run_pair, prop_pair.
+  destruct (fwd_entry o1 q1) as [[i1 e1]|] eqn:E1; [|discriminate].
+  destruct (fwd_entry o2 q2) as [[i2 e2]|] eqn:E2; [|discriminate]. intros _.
+  destruct (fwd_entry_inv _ _ _ _ E1) as [c1 [b1 [Hc1 [Hb1 [Hi1 Hm1]]]]].
+  destruct (fwd_entry_inv _ _ _ _ E2) as [c2 [b2 [Hc2 [Hb2 [Hi2 Hm2]]]]].
+  rewrite Hc1, Hc2, Hb1, Hb2, Hi1, Hi2. cbn [fst]. rewrite !Z.eqb_refl. cbn [andb].
+  pose proof (log_has_enc c1 i1 e1 [] [enc_entry (i2, e2)] Hm1) as A1.
+  pose proof (log_has_enc c2 i2 e2 [enc_entry (i1, e1)] [] Hm2) as A2.
+  pose proof (log_has_enc c1 i1 e1 [enc_entry (i2, e2)] [] Hm1) as B1.
+  pose proof (log_has_enc c2 i2 e2 [] [enc_entry (i1, e1)] Hm2) as B2.
+  cbn [app] in A1, A2, B1, B2.
+  destruct (i1 <=? i2); cbn [length Z.of_nat]; cbn [Z.eqb Pos.eqb andb Pos.of_succ_nat Pos.succ];
+    rewrite ?A1, ?A2, ?B1, ?B2; reflexivity.
+Qed.
 Lemma prop_C56_of_model i : wf_C56 i = true -> kf_C56 i = 0 -> prop_C56 i (run_C56 i) = true.
 Proof.
-  unfold wf_C56, kf_C56, prop_C56, run_C56. destruct (dec_in i) as [[o q]|]; [|discriminate].
-  intros Hip Hk. rewrite dec_enc_res.
-  destruct (kf_truncated o q) eqn:K1; [discriminate|]. destruct (kf_second_opt o q) eqn:K2; [discriminate|].
-  apply model_meets_spec; assumption.
+  unfold wf_C56, kf_C56, prop_C56, run_C56. destruct (dec_any i) as [[o q|r t|o1 q1 o2 q2]|]; [| | |discriminate].
+  - intros Hip Hk. rewrite dec_enc_res.
+    destruct (kf_truncated o q) eqn:K1; [discriminate|]. destruct (kf_second_opt o q) eqn:K2; [discriminate|].
+    apply model_meets_spec; assumption.
+  - intros _ _. reflexivity.
+  - intros Hw _. apply prop_pair_model. exact Hw.
+Qed.
+(* concurrent queries: each client's message reaches the upstream with that client's option *)
+Lemma pair_each_forwarded o1 q1 o2 q2 :
+  pair_wf o1 q1 o2 q2 = true ->
+  exists i1 e1 i2 e2 c1 c2,
+    fwd_entry o1 q1 = Some (i1, e1) /\ fwd_entry o2 q2 = Some (i2, e2) /\ i1 <> i2
+    /\ client_ip q1 = Some c1 /\ client_ip q2 = Some c2 /\ ecs_matches c1 e1 = true /\ ecs_matches c2 e2 = true
+    /\ run_pair o1 q1 o2 q2 =
+       VL [VL [VZ 1; VZ i1]; VL [VZ 1; VZ i2];
+           VL (if i1 <=? i2 then [enc_entry (i1, e1); enc_entry (i2, e2)] else [enc_entry (i2, e2); enc_entry (i1, e1)])].
+Proof.
+  unfold pair_wf, run_pair.
+  destruct (fwd_entry o1 q1) as [[i1 e1]|] eqn:E1; [|discriminate].
+  destruct (fwd_entry o2 q2) as [[i2 e2]|] eqn:E2; [|discriminate]. intros Hd.
+  destruct (fwd_entry_inv _ _ _ _ E1) as [c1 [b1 [Hc1 [_ [_ Hm1]]]]].
+  destruct (fwd_entry_inv _ _ _ _ E2) as [c2 [b2 [Hc2 [_ [_ Hm2]]]]].
+  exists i1, e1, i2, e2, c1, c2. cbn [fst] in *. repeat split; try assumption; try reflexivity.
+  apply negb_true_iff in Hd. apply Z.eqb_neq in Hd. exact Hd.
 Qed.
 
 (* ---- witnesses (real cases produced by the harness; the oracle rows are values of miekg/dns) ---- *)
